@@ -29,6 +29,9 @@ type C12Fault struct {
 type C12Case struct {
 	Hist   HistCase   `json:"hist"`
 	Faults []C12Fault `json:"faults"` // one per batch
+	// Hold (reload queue mode, Hist.Params.ReloadQueue): the reload requested by the batch stays in the reload queue
+	// while the next batch is reconciled (the queue is rate limited, or its worker waits for the lock)
+	Hold []bool `json:"hold,omitempty"`
 }
 
 var c12Kinds = []string{
@@ -40,7 +43,7 @@ func genC12(t *rapid.T) C12Case {
 	p.Classes = false
 	p.MissingRefs = true
 	p.Avoid = []avoidRule{{Sig: sigDefBackJoins, Pred: gainsDefaultBackend}}
-	params := ctlsim.Params{Shards: rapid.SampledFrom([]int{0, 0, 3}).Draw(t, "shards")}
+	params := ctlsim.Params{Shards: rapid.SampledFrom([]int{0, 0, 3}).Draw(t, "shards"), ReloadQueue: chanceT(t, "reloadqueue", 30)}
 	h := genHistory(t, p, params, c12Kinds, sizeScale(4, 8), 3)
 	for i := range h.Split {
 		h.Split[i] = -1
@@ -67,6 +70,9 @@ func genC12(t *rapid.T) C12Case {
 			f.Repeat = rapid.SampledFrom([]int{0, 0, 0, 1, 2}).Draw(t, "repeat")
 		}
 		c.Faults = append(c.Faults, f)
+		if params.ReloadQueue {
+			c.Hold = append(c.Hold, chanceT(t, "hold", 40))
+		}
 	}
 	return c
 }
@@ -184,7 +190,7 @@ func execC12(c C12Case) *Failure {
 	st := getStats("C12")
 	triggered, triggeredOnChange, cmdFaults, faultsSeen := 0, 0, 0, 0
 	kindsHit := map[string]bool{}
-	steps := 0
+	steps, held := 0, 0
 	var active *poison
 	var curFault C12Fault
 	f := histRun2(c.Hist, func(s *ctlsim.Sim, batch int) {
@@ -193,6 +199,10 @@ func execC12(c C12Case) *Failure {
 			curFault = c.Faults[batch]
 		}
 		injectFault(s, curFault, &active)
+		s.HoldReloads = batch >= 0 && batch < len(c.Hold) && c.Hold[batch]
+		if s.HoldReloads {
+			held++
+		}
 	}, func(s *ctlsim.Sim, batch int, infos []ctlsim.StepInfo) *Failure {
 		if batch < 0 {
 			steps += len(infos)
@@ -226,9 +236,13 @@ func execC12(c C12Case) *Failure {
 			cmdFaults++
 			kindsHit["cmd"] = true
 		}
-		if attempts == 0 && !cmdFaultHit && batch != len(c.Hist.Batches)-1 {
+		queuedReloadFault := s.ReloadQ != nil && curFault.Kind == "reload"
+		if attempts == 0 && !cmdFaultHit && !queuedReloadFault && batch != len(c.Hist.Batches)-1 {
 			return nil
 		}
+		// the reload queue's worker runs whatever is (still) waiting
+		s.HoldReloads = false
+		s.RunReloads()
 		// after the (successful) retry everything must have converged
 		what := fmt.Sprintf("batch %d, fault %+v hit=%v, %d retries", batch, curFault, attempts > 0, attempts)
 		if diff := runningVsFiles(s, false); len(diff) > 0 {
@@ -256,6 +270,12 @@ func execC12(c C12Case) *Failure {
 	labels := histLabels(c.Hist)
 	for k := range kindsHit {
 		labels = append(labels, "fault-triggered:"+k)
+	}
+	if c.Hist.Params.ReloadQueue {
+		labels = append(labels, "reload-queue")
+	}
+	if held > 0 {
+		labels = append(labels, "reload-held-across-an-update")
 	}
 	st.Case(c, triggeredOnChange > 0, labels...)
 	st.Count("reconcile_steps", steps)
